@@ -591,7 +591,7 @@ Definition write_bdd_o (dbg : bool) (b : bdd) : outcome * bytes :=
        else let '(o3, b3) := write_wobj_o dbg (b_ksl b) in (seq_oc (seq_oc o1 o2) o3, b1 ++ b2 ++ b3).
 
 (* ------------------------------------------------------------------------------------------------ *)
-(* the code as it is today *)
+(* the code as it was before /repo 206cd69 / 0b16af7 / 6f8da98 / 1c0fa22 (kept: the refutations in Proofs/ speak about it) *)
 Definition current_flat : flat_reader := read_flat.
 Definition current_wobj : wobj_reader := read_wobj_with current_flat.
 Definition current_kseq : kseq_reader := read_kseq_with current_wobj.
@@ -599,22 +599,31 @@ Definition current_cbk : cbk_reader := read_cbk_with current_kseq current_wobj.
 Definition current_bdd := read_bdd_with current_cbk current_wobj.
 Definition current_dist_writer (t p : Z) : option Z := Some (dist_word t p).
 
-(* the proposed repairs (work/proposed_fixes/C18_*.diff) *)
+(* the repaired code (work/proposed_fixes/C18_*.diff, applied to /repo as 206cd69, 0b16af7, 6f8da98, 1c0fa22) *)
 Definition fixed_flat : flat_reader := read_flat_fixed.
 Definition fixed_wobj : wobj_reader := read_wobj_fixed_with fixed_flat.
 Definition fixed_kseq : kseq_reader := read_kseq_fixed_with fixed_wobj.
 Definition fixed_cbk : cbk_reader := read_cbk_with fixed_kseq fixed_wobj.
 Definition fixed_bdd := read_bdd_with fixed_cbk fixed_wobj.
 
-(* THE SWITCH: which model describes /repo (used by run_c18).  Today: the code as it is.  When a proposed fix has
-   been applied to /repo, change `current_X` into `fixed_X` on the corresponding line (and the statement of
-   C18_model_in_force in Props/C18.v); every theorem about `current_*` and `fixed_*` stays as it is. *)
-Definition reader_flat : flat_reader := current_flat.          (* C18_hal_read_from_checked.diff *)
-Definition reader_wobj : wobj_reader := read_wobj_with reader_flat.   (* C18_core_wrappers_commit_after.diff: read_wobj_fixed_with reader_flat *)
-Definition reader_kseq : kseq_reader := read_kseq_with reader_wobj.   (* C18_binfhe_dist_commit_after.diff: read_kseq_fixed_with reader_wobj *)
-Definition reader_cbk : cbk_reader := read_cbk_with reader_kseq reader_wobj.
-Definition reader_bdd := read_bdd_with reader_cbk reader_wobj.
-Definition dist_writer : Z -> Z -> option Z := current_dist_writer.   (* C18_distribution_payload_checked.diff: dist_write_fixed *)
+(* proposed repair of the composites (work/proposed_fixes/C18_composites_staged.diff): the stream is first read into
+   copies of the sub-keys (through a recording reader); the receiver is only touched, by replaying the recorded
+   bytes, when the whole bundle has been accepted.  The in-place reader is a function, so: *)
+Definition staged {A : Type} (rd : A -> bytes -> outcome * A * bytes) (a : A) (s : bytes) : outcome * A * bytes :=
+  let '(o, a', t) := rd a s in
+  match o with Ok => (Ok, a', t) | _ => (o, a, []) end.
+Definition staged_kseq : kseq_reader := fun dbg partial => staged (fixed_kseq dbg partial).
+Definition staged_cbk : cbk_reader := fun dbg partial => staged (fixed_cbk dbg partial).
+Definition staged_bdd := fun (dbg partial : bool) => staged (fixed_bdd dbg partial).
+
+(* THE SWITCH: which model describes /repo (used by run_c18; C18_model_in_force in Props/C18.v names it).
+   Since the four repairs are in /repo: the repaired readers and writer. *)
+Definition reader_flat : flat_reader := fixed_flat.
+Definition reader_wobj : wobj_reader := read_wobj_fixed_with reader_flat.
+Definition reader_kseq : kseq_reader := read_kseq_fixed_with reader_wobj.   (* C18_composites_staged.diff: staged_kseq *)
+Definition reader_cbk : cbk_reader := read_cbk_with reader_kseq reader_wobj.   (* C18_composites_staged.diff: staged_cbk *)
+Definition reader_bdd := read_bdd_with reader_cbk reader_wobj.               (* C18_composites_staged.diff: staged_bdd *)
+Definition dist_writer : Z -> Z -> option Z := dist_write_fixed.
 
 (* ------------------------------------------------------------------------------------------------ *)
 (* invariants and metadata (computable; the Prop versions are in Proofs/C18Flat.v)                   *)
